@@ -46,6 +46,10 @@ CLAIMED = {
          "Exploration: circle-circle intersections in every relative position (separate, externally/internally tangent, crossing, nested, concentric, equal radii, identical), intersection intervals, circle-segment and curve-circle intersections, tangent points from external points at d/r from 1+1e-6 to 1e3, outer tangent segments, arcs by angles and through three points (start/end/sweep sign/length/fraction), and the cached bounding boxes of circles and arcs against dense samples and an independent box.",
          "Tangent configurations are built on dyadic, axis-aligned coordinates so that they are exact; non-constructed cases stay >= 1e-6 r away from tangency; on-object tolerance 1e-9*scale. The private line-circle primitive is observed through the public segment intersection. Known finding: reversed left/right order of outer tangents for equal radii (cannot be repaired without editing an existing unit test).",
          "3 / C11"),
+ "C16": ("runtime monitor: brute-force signed-distance oracle for deviations; Vec / three-vector sequential models over random call histories for the aggregates; defining rule for the breakpoint table",
+         "Exploration: point_curve2_deviation / line_surface_deviations / Mesh::measure_point_deviation (both modes) with measured points on both sides, in the 1e-6 coincidence band, at corners and beyond open ends; Distance2/Distance3 value, reversal, centre; histories of up to 200 SurfaceDeviationSet new/push/push_new calls with ties, equal extremes and one-signed values checked after every call against a Vec model (max, min, symmetric zone, len, order); histories of PointCloud try_new/empty/append/merge/create_from_indices/transform with consistent and inconsistent normal/colour presence (accepted operations append exactly, rejected ones change nothing, lengths stay equal); breakpoint tables queried at, between, one ulp around and beyond both ends.",
+         "Deviation sign judged only where the closest edges/faces agree on the side; below the library's absolute 1e-6 coincidence threshold only |value| <= distance is required.",
+         "3 / C16"),
  "C17": ("runtime monitor: structural invariant after every constructor/derivation plus a piecewise-linear reference model",
          "Exploration: DiscreteDomain::linear / linear_space with bounds in both orders, TryFrom<Vec>, push histories against a Vec model, index_of/bounds; Series1 interpolate (knots, +-ulp, outside), between/in_interval with bounds inside the domain (exact ends, same function), split_at_x (areas add up, pieces meet at x), resampled_n/resampled_x (ends kept, on the graph), y_crossings (on level, every sign change represented), and chains of up to 6 derived operations with the structural invariant (finite ascending abscissae, matching ordinates) judged after every step.",
          "Slices are requested inside the domain; levels equal to a flat segment are not generated; a loud panic on a degenerate (< 2 knots) series is not counted as a silently invalid object. Known finding: linear_space with start > end returns a descending domain.",
